@@ -79,7 +79,12 @@ impl Watch {
                     if !id_used {
                         return Expect::Refuse(false);
                     }
-                    either = true;
+                    // between CONNECT and CONNACK the CONNECT just processed has decided the
+                    // session kind: a persistent session keeps the publish for after the CONNACK;
+                    // with no connection at all either outcome is accepted
+                    if !(m.st == St::Connecting && m.persistent) {
+                        either = true;
+                    }
                 }
             }
             PUBREL => {
@@ -125,6 +130,11 @@ impl Watch {
                 }
             } else if p.topic.is_empty() {
                 return Expect::Refuse(true);
+            }
+            if p.qos > 0 && !connected && m.st == St::Connecting && m.persistent && m.rm_send.is_some() && !either {
+                // a server already knows the peer's Receive Maximum; how many queued publishes
+                // it admits before its own CONNACK is not pinned: accepted, or refused for that reason
+                return Expect::EitherRm;
             }
             if p.qos > 0 && connected {
                 if let Some(mx) = m.rm_send {
@@ -195,7 +205,11 @@ impl Watch {
         };
         match expect {
             Expect::Refuse(_) if !refused => {
-                let props: &[&'static str] = if p.kind == PUBLISH && p.v == 5 && self.m.st == St::Connected && n_send > 0 {
+                let oversize_sent = p.v == 5 && n_send > 0 && self.m.mps_send.map_or(false, |l| wire::encode(p, self.idw).len() > l as usize);
+                let props: &[&'static str] = if oversize_sent {
+                    // whatever else forbids the packet, it went out larger than the peer allows
+                    &["C14", "C11"]
+                } else if p.kind == PUBLISH && p.v == 5 && self.m.st == St::Connected && n_send > 0 {
                     // which rule was broken decides the property
                     if self.m.mps_send.map_or(false, |l| wire::encode(p, self.idw).len() > l as usize) {
                         &["C14", "C11"]
@@ -998,11 +1012,19 @@ impl Watch {
         }
         let what = format!("set_auto[{which}]({on})");
         let st_before = self.m.st;
+        // 4: offline publishing is only ever switched off again where it is off already - the one
+        // call that is a no-op by its documentation (switching it on stores from then on, and what
+        // a change while a session exists should mean is not pinned by any property)
+        if which >= 4 && self.opts.offline {
+            return;
+        }
+        let offline = false;
         let ok = self.guarded(&what, &[], |ep| match which {
             0 => ep.set_auto_pub_response(on),
             1 => ep.set_auto_ping_response(on),
             2 => ep.set_auto_map(on),
-            _ => ep.set_auto_replace(on),
+            3 => ep.set_auto_replace(on),
+            _ => ep.set_offline_publish(offline),
         });
         if ok.is_none() {
             return;
@@ -1011,7 +1033,8 @@ impl Watch {
             0 => self.opts.auto_pub = on,
             1 => self.opts.auto_ping = on,
             2 => self.opts.auto_map = on,
-            _ => self.opts.auto_replace = on,
+            3 => self.opts.auto_replace = on,
+            _ => {}
         }
         self.stats.hit("option_toggled_while_running");
         self.common(&[], Ctx { st_before: Some(st_before), local: true, what, ..Default::default() });
